@@ -358,7 +358,7 @@ theorem alu_opd4 (i : Insn) (h : i.opc.toNat = 0xd4) : ArmSim i := by
     simp only [alu_rd _ _ _ hd, if_neg h16, if_neg h32, if_pos h64, alu_wr _ _ _ hd] at hex
     injection hex with hex
     subst hex
-    refine ⟨0, σ, rfl, ?_, rfl, Or.inl ⟨hpc, hrip⟩⟩
+    refine ⟨0, σ, rfl, ?_, rfl, rfl, rfl, rfl, Or.inl ⟨hpc, hrip⟩⟩
     rw [alu_set_self]
     exact hrel
   · rw [if_neg h64] at harm'
@@ -384,7 +384,7 @@ theorem alu_opdc (i : Insn) (h : i.opc.toNat = 0xdc) : ArmSim i := by
     injection hex with hex
     subst hex
     obtain ⟨n1, hdec1, hrest⟩ := checkSeq_i _ _ _ _ _ _ hchk
-    obtain ⟨σ1, x1, r1, m1, p1⟩ := alu_x_rol16 c σ (regOf i.dst.toNat) (c.codeBase + a + n1)
+    obtain ⟨σ1, x1, r1, m1, p1, l1, g1⟩ := alu_x_rol16 c σ (regOf i.dst.toNat) (c.codeBase + a + n1)
     have hrel1 := rel0_congr _ _ _ _ (rel0_wr retAddr σ s i.dst.toNat (alu_rol16 (σ.get (regOf i.dst.toNat))) hd hrel) r1 m1
     have hst1 : stepsN c 1 σ = some σ1 := stepsN_one _ _ _ (by rw [step_at c σ a n1 _ hrip hdec1]; exact x1)
     have hg : σ1.get (regOf i.dst.toNat) = alu_rol16 (σ.get (regOf i.dst.toNat)) := by
@@ -393,10 +393,10 @@ theorem alu_opdc (i : Insn) (h : i.opc.toNat = 0xdc) : ArmSim i := by
       rw [this, get_set_eq _ _ _ (regOf_lt _ hd)]
     have hm2 := alu_x_ri32 c σ1 .and (by decide) (by decide) (regOf i.dst.toNat) 0xffff#32
     rw [hg, alu_be16, hrel.regs _ hd] at hm2
-    obtain ⟨σ2, h1, h2, h3, h4⟩ :=
+    obtain ⟨σ2, h1, h2, h3, h4, h5, h6⟩ :=
       alu_fall_one c tgt (a + n1) b retAddr σ1 _ _ _ _ hd hrest (by rw [p1, Nat.add_assoc]) hrel1 hm2
     simp only [Vector.setIfInBounds_setIfInBounds] at h2
-    refine ⟨2, σ2, stepsN_add c 1 1 σ σ1 σ2 hst1 h1, h2, ?_, Or.inl ⟨hpc, h4⟩⟩
+    refine ⟨2, σ2, stepsN_add c 1 1 σ σ1 σ2 hst1 h1, h2, ?_, h5.trans l1, h6.trans g1, rfl, Or.inl ⟨hpc, h4⟩⟩
     simp only [topBytes, h3, m1]
   by_cases h32 : i.imm = 32
   · refine alu_single i (fun _ ds => .bswap false ds) (fun d _ => Interp.bswap d 4) ?_ ?_
@@ -458,9 +458,9 @@ theorem alu_op18 (i : Insn) (h : i.opc.toNat = 0x18) : ArmSim i := by
     injection hex with hex
     subst hex
     have hm := alu_x_loadImm c σ (regOf i.dst.toNat) (nx.imm ++ i.imm)
-    obtain ⟨σ', h1, h2, h3, h4⟩ :=
+    obtain ⟨σ', h1, h2, h3, h4, h5, h6⟩ :=
       alu_fall_one c tgt a b retAddr σ _ _ _ _ hd hchk hrip (rel0_pc retAddr σ s (pc + 1 + 1) hrel) hm
-    refine ⟨1, σ', h1, h2, ?_, Or.inl ⟨rfl, h4⟩⟩
+    refine ⟨1, σ', h1, h2, ?_, h5, h6, rfl, Or.inl ⟨rfl, h4⟩⟩
     simp only [topBytes, h3]
 
 theorem armSim_alu (i : Insn) (h : i.opc.toNat ∈ aluOpcodes) : ArmSim i := by
